@@ -60,6 +60,9 @@ def make_body(rng, st, short, header_pos, bom, with_decl, latin=False):
             elif r < 0.585 and latin:
                 # bytes that are not UTF-8 (a Latin-1 comment or string): kept as they are, or the file is refused - never rewritten
                 out.append(("A", rng.choice([f"K{nid()} caf\udce9 cr\udce8me", f"s = 'K{nid()} na\udcefve \udcff'"])))
+            elif r < 0.6 and rng.random() < 0.3:
+                # characters typed with combining marks (decomposed form): bytes of the body like any other
+                out.append(("A", rng.choice([f"K{nid()} = 'Rene\u0301 Mu\u0308ller'", f"K{nid()} cafe\u0301 \u212bngstro\u0308m \ufb01n"])))
             elif r < 0.6:
                 # characters str.splitlines() would split on, but which are not line endings of the file
                 odd = rng.choice(["\x0c", "\x0b", "\x1c", "\x1d", "\x1e", "\x85", "\u2028", "\u2029"])
@@ -92,6 +95,9 @@ def make_body(rng, st, short, header_pos, bom, with_decl, latin=False):
     decl = None
     if with_decl and st["shebangs"]:
         decl = rng.choice(st["shebangs"]) + f" D{nid()} declaration"
+        if decl.startswith("<?xml ") and rng.random() < 0.4:
+            # XML allows any white space behind the name: a tab, or the line ending right there
+            decl = rng.choice(["<?xml\t" + decl[6:], "<?xml"])
         items.append(("D", decl))
     old = []
     if header_pos not in ("none", "top-trailing"):
